@@ -73,8 +73,9 @@ CHECKS = {
    text="On DictRecord.tla TLC checks SubsetStable: for all 1024 field subsets (closed as InfoSubset::normalize closes them) and every requested field, the accessor value equals "
         "that of a full load, for target rows over the value lattice, with and without synonym section; the transcribed reader has the light/heavy field distinction and the early "
         "exit. Each enumerated lexicon is compiled and read under all 1024 subsets with the real reader; every word of the repository dictionaries (system + 2 user) is read under "
-        "subsets and analyses under subsets x modes x three set_mode/set_subset orders are compared with the full-field analysis (boundaries + word ids when no path-rewrite plugin "
-        "or surface/POS/normalized are requested; partition always).",
+        "subsets and analyses under subsets x modes x six orders of create/set_subset/set_mode calls (incl. analyses in other modes in between) are compared with the full-field analysis "
+        "(boundaries + word ids when no path-rewrite plugin or surface/POS/normalized are requested; partition always) and, field by requested field, with the full-field analysis and "
+        "with the lexicon's own full read of each token's word (also in a world whose split units have units of their own).",
    note="Trusted: TLC, JSON bridge. Requests are closed by InfoSubset::normalize before reaching the reader (as every front end does). Unrequested fields are never compared. "
         "A genuine defect found here was repaired (see known_findings.json, fixed).",
    technique="TLA+ spec DictRecord (SubsetStable over 2^10 subsets) + TLC; S->I replay under all subsets; I->S trace validation (Trace_Subset)",
@@ -232,7 +233,8 @@ CHECKS = {
         "reads per analysis / analyses per thread, with its own negative control. The model is bound to the code by recorded concurrent executions: 8-32 threads, each with its own StatefulTokenizer over one "
         "Arc<JapaneseDictionary> (3 configurations with every plugin type and user dictionaries), and Python threads with own Tokenizers, one shared pre-tokenizer and one shared Tokenizer (GIL "
         "released during analysis); the hooks' dict_write/frozen events must be ordered as the model's LoadWrite/Freeze, every outcome must equal the single-threaded oracle recorded before and "
-        "after the threads, and the dictionary fingerprint must not change.",
+        "after the threads, and the dictionary fingerprint must not change. Cold starts: 400 (thorough 3000) freshly loaded dictionaries per configuration (a twin without user "
+        "dictionaries, so loading analyses nothing) are first analysed by 8 threads at once and compared with a single-threaded run on another fresh dictionary.",
    note="The real code is explored only under the schedules the OS produced in these runs (barrier start, 16 cores, > 1M analyses per quick run); exhaustive interleaving coverage exists for the model "
         "only. A write path not marked by hook H4 that changes neither results nor accessor values is invisible. An analysis that never returns is reported by a watchdog (hang event, no action).",
    technique="TLA+ spec Concurrent + TLC over all interleavings (with negative-control variants) + Apalache inductive invariant (unbounded reads/analyses, 4 threads); I->S trace validation of recorded multi-threaded Rust and Python executions (Trace_Concurrent)",
